@@ -3303,3 +3303,211 @@ Section L007Exact.
     - subst col. rewrite E. unfold chars. rewrite map_app, blen_app. split; [apply le_n_S; apply Nat.le_0_l|]. apply le_n_S. apply Nat.le_add_r.
   Qed.
 End L007Exact.
+
+(* ------------------------------------------------------------------------------------------------ *)
+(* L010: exact flagging *)
+
+(* byte offsets of the maximal runs of two or more code spaces of a classified line: one scan *)
+Fixpoint runs (i run rs : nat) (l : list cc) : list nat :=
+  match l with
+  | [] => if (2 <=? run)%nat then [rs] else []
+  | p :: t => if cspace p then runs (i + width (fst p)) (S run) (if (run =? 0)%nat then i else rs) t
+              else (if (2 <=? run)%nat then [rs] else []) ++ runs (i + width (fst p)) 0 rs t
+  end.
+
+Lemma runs_rs0 : forall l i rs rs', runs i 0 rs l = runs i 0 rs' l.
+Proof.
+  induction l as [|p t IH]; intros i rs rs'; [reflexivity|]. cbn [runs Nat.eqb Nat.leb app]. destruct (cspace p); [reflexivity|apply IH].
+Qed.
+
+Definition pcols (ps : list (nat * list ch)) : list nat :=
+  flat_map (fun p : nat * list ch => map (fun m => (fst p + m)%nat) (sp_runs 0 0 0 (snd p))) ps.
+
+Lemma parts_runs : forall l i start cur off run rs E,
+  (forall x, sp_runs 0 0 0 (rev cur ++ x) = E ++ sp_runs off run rs x) ->
+  (cur <> [] -> i = (start + off)%nat) ->
+  (cur = [] -> E = [] /\ off = 0%nat /\ run = 0%nat) ->
+  pcols (l010_parts i start cur l) = map (fun m => (start + m)%nat) E ++ runs i run (start + rs)%nat l.
+Proof.
+  induction l as [|p t IH]; intros i start cur off run rs E Hs Hi H0.
+  - cbn [l010_parts runs]. destruct cur as [|c cur].
+    + destruct (H0 eq_refl) as (E1 & E2 & E3). subst. reflexivity.
+    + unfold pcols. cbn [flat_map fst snd]. rewrite app_nil_r. specialize (Hs []). rewrite app_nil_r in Hs. rewrite Hs.
+      cbn [sp_runs]. rewrite map_app. destruct (2 <=? run)%nat; reflexivity.
+  - cbn [l010_parts runs]. cbv zeta. destruct (code0 p) eqn:Ec.
+    + assert (Ecs : cspace p = is_sp (fst p)) by (unfold cspace; rewrite Ec; apply andb_true_r). rewrite Ecs.
+      set (start' := match cur with [] => i | _ :: _ => start end).
+      assert (Hst : cur <> [] -> start' = start) by (destruct cur; [intro X; contradiction|reflexivity]).
+      assert (Hs' : forall x, sp_runs 0 0 0 (rev (fst p :: cur) ++ x) = E ++ sp_runs off run rs (fst p :: x)).
+      { intro x. cbn [rev]. rewrite <- app_assoc. cbn [app]. apply Hs. }
+      destruct (is_sp (fst p)) eqn:Esp.
+      * rewrite (IH (i + width (fst p))%nat start' (fst p :: cur) (off + width (fst p))%nat (S run) (if (run =? 0)%nat then off else rs) E).
+        -- destruct cur as [|c cur].
+           ++ destruct (H0 eq_refl) as (E1 & E2 & E3). subst. cbn [map app Nat.eqb]. unfold start'. rewrite Nat.add_0_r. reflexivity.
+           ++ rewrite (Hst ltac:(discriminate)). f_equal. f_equal. destruct (run =? 0)%nat; [symmetry; apply Hi; discriminate|reflexivity].
+        -- intro x. rewrite Hs'. cbn [sp_runs]. rewrite Esp. reflexivity.
+        -- intros _. destruct cur as [|c cur]; [destruct (H0 eq_refl) as (_ & E2 & _); subst; unfold start'; lia|].
+           rewrite (Hst ltac:(discriminate)). rewrite (Hi ltac:(discriminate)). lia.
+        -- intro X. discriminate.
+      * rewrite (IH (i + width (fst p))%nat start' (fst p :: cur) (off + width (fst p))%nat 0%nat rs (E ++ if (2 <=? run)%nat then [rs] else [])).
+        -- destruct cur as [|c cur].
+           ++ destruct (H0 eq_refl) as (E1 & E2 & E3). subst. cbn [map app Nat.leb]. apply runs_rs0.
+           ++ rewrite (Hst ltac:(discriminate)). rewrite map_app. rewrite <- app_assoc. f_equal. destruct (2 <=? run)%nat; reflexivity.
+        -- intro x. rewrite Hs'. cbn [sp_runs]. rewrite Esp. rewrite app_assoc. reflexivity.
+        -- intros _. destruct cur as [|c cur]; [destruct (H0 eq_refl) as (_ & E2 & _); subst; unfold start'; lia|].
+           rewrite (Hst ltac:(discriminate)). rewrite (Hi ltac:(discriminate)). lia.
+        -- intro X. discriminate.
+    + assert (Ecs : cspace p = false) by (unfold cspace; rewrite Ec; apply andb_false_r). rewrite Ecs.
+      unfold pcols. rewrite flat_map_app. fold (pcols (l010_parts (i + width (fst p)) start [] t)).
+      rewrite (IH (i + width (fst p))%nat start [] 0%nat 0%nat 0%nat []); [|intro x; reflexivity|intro X; contradiction|intros _; repeat split].
+      cbn [map app]. rewrite (runs_rs0 t _ (start + 0)%nat (start + rs)%nat). rewrite app_assoc. f_equal.
+      destruct cur as [|c cur].
+      * destruct (H0 eq_refl) as (E1 & E2 & E3). subst. reflexivity.
+      * cbn [flat_map fst snd]. rewrite app_nil_r. specialize (Hs []). rewrite app_nil_r in Hs. rewrite Hs. cbn [sp_runs].
+        rewrite map_app. destruct (2 <=? run)%nat; reflexivity.
+Qed.
+
+Lemma pcols_runs : forall l, pcols (l010_parts 0 0 [] l) = runs 0 0 0 l.
+Proof.
+  intro l. rewrite (parts_runs l 0%nat 0%nat [] 0%nat 0%nat 0%nat []); [reflexivity|intro x; reflexivity|intro X; contradiction|intros _; repeat split].
+Qed.
+
+Lemma blen_chars_app : forall a b : list cc, blen (chars (a ++ b)) = (blen (chars a) + blen (chars b))%nat.
+Proof. intros a b. unfold chars. rewrite map_app. apply blen_app. Qed.
+Lemma blen_chars_cons : forall (p : cc) (a : list cc), blen (chars (p :: a)) = (width (fst p) + blen (chars a))%nat.
+Proof. reflexivity. Qed.
+Lemma blen_chars_nil : blen (chars []) = 0%nat.
+Proof. reflexivity. Qed.
+
+Lemma app_eq2 : forall {A} (X X' Y Y' : list A), X = X' -> Y = Y' -> X ++ Y = X' ++ Y'.
+Proof. intros; subst; reflexivity. Qed.
+
+(* one step of [runs] over a whole run of code spaces *)
+Lemma runs_step : forall l i run rs,
+  runs i run rs l =
+  (if (2 <=? run + length (take_l cspace l))%nat then [if (run =? 0)%nat then i else rs] else []) ++
+  match trim_l cspace l with
+  | [] => []
+  | p :: t => runs (i + blen (chars (take_l cspace l ++ [p]))) 0 0 t
+  end.
+Proof.
+  induction l as [|p t IH]; intros i run rs.
+  - cbn [runs take_l trim_l length]. rewrite Nat.add_0_r. destruct (2 <=? run)%nat eqn:E; [|reflexivity].
+    destruct run; [discriminate|reflexivity].
+  - cbn [runs take_l trim_l]. destruct (cspace p) eqn:Ec.
+    + rewrite IH. cbn [length]. replace (S run + length (take_l cspace t))%nat with (run + S (length (take_l cspace t)))%nat by lia.
+      cbn [Nat.eqb]. apply app_eq2.
+      * destruct (2 <=? run + S (length (take_l cspace t)))%nat; [|reflexivity]. destruct (run =? 0)%nat; reflexivity.
+      * destruct (trim_l cspace t) as [|q r]; [reflexivity|]. cbn [app chars map]. rewrite blen_cons. rewrite Nat.add_assoc. reflexivity.
+    + cbn [length app chars map]. rewrite Nat.add_0_r. apply app_eq2.
+      * destruct (2 <=? run)%nat eqn:E; [|reflexivity]. destruct run; [discriminate|reflexivity].
+      * rewrite blen_cons. cbn [blen fold_right]. rewrite Nat.add_0_r. apply runs_rs0.
+Qed.
+
+Lemma first_nonc : forall a, forallb cspace a = false -> exists x d y, a = x ++ d :: y /\ forallb cspace x = true /\ cspace d = false.
+Proof.
+  induction a as [|p a IH]; intro H; [discriminate|]. cbn in H. destruct (cspace p) eqn:E.
+  - cbn in H. destruct (IH H) as (x & d & y & E1 & E2 & E3). exists (p :: x), d, y. subst. cbn. rewrite E, E2. repeat split; assumption.
+  - exists [], p, a. repeat split. exact E.
+Qed.
+
+Lemma lastc_all : forall a q, forallb cspace a = true -> lastc a = Some q -> cspace q = true.
+Proof. intros a q H Hq. apply lastc_in in Hq. rewrite forallb_forall in H. apply H. exact Hq. Qed.
+
+Lemma runs_exact_n : forall n l i m, (length l <= n)%nat ->
+  (In m (runs i 0 0 l) <-> exists pre r post, cspace_run l pre r post /\ m = (i + blen (chars pre))%nat).
+Proof.
+  induction n as [|n IH]; intros l i m Hl.
+  - destruct l; [|cbn in Hl; lia]. cbn. split; [intros []|]. intros (pre & r & post & (E & _ & H2 & _) & _).
+    destruct pre; [|discriminate]. destruct r; [cbn in H2; lia|discriminate].
+  - rewrite runs_step. cbn [Nat.add Nat.eqb]. rewrite in_app_iff.
+    set (r0 := take_l cspace l). set (rest := trim_l cspace l).
+    assert (El : l = r0 ++ rest) by (symmetry; apply take_trim_l).
+    assert (H0 : forallb cspace r0 = true) by apply take_l_all.
+    assert (Hrest : match rest with d :: _ => cspace d = false | [] => True end).
+    { unfold rest. destruct (trim_l cspace l) as [|d y] eqn:Et; [exact I|]. eapply trim_l_head. exact Et. }
+    split.
+    + intros [H|H].
+      * destruct (2 <=? length r0)%nat eqn:E2; [|destruct H]. destruct H as [H|[]]. subst m.
+        exists [], r0, rest. split; [|cbn; lia]. split; [exact El|]. split; [exact H0|]. split; [apply Nat.leb_le; exact E2|].
+        split; [exact I|exact Hrest].
+      * destruct rest as [|p t] eqn:Er; [destruct H|].
+        assert (Hlen : (length t <= n)%nat).
+        { apply (f_equal (@length cc)) in El. rewrite app_length in El. cbn [length] in El. cbn [length] in Hl. lia. }
+        apply (IH t _ m Hlen) in H. destruct H as (pre & r & post & (E & Hr & H2 & Hp & Hq) & Em).
+        exists (r0 ++ p :: pre), r, post. split.
+        -- split; [rewrite El; rewrite <- app_assoc; cbn [app]; rewrite E; reflexivity|]. split; [exact Hr|]. split; [exact H2|].
+           split; [|exact Hq]. rewrite lastc_app by discriminate. destruct pre as [|q pre'].
+           ++ cbn. exact Hrest.
+           ++ rewrite lastc_cons by discriminate. exact Hp.
+        -- rewrite Em. rewrite !blen_chars_app, !blen_chars_cons, blen_chars_nil. lia.
+    + intros (pre & r & post & (E & Hr & H2 & Hp & Hq) & Em). destruct pre as [|q pre'].
+      * left. cbn [app] in E.
+        assert (Er0 : r0 = r).
+        { unfold r0. rewrite E. rewrite take_l_app_all by exact Hr. destruct post as [|d y]; [rewrite app_nil_r; reflexivity|].
+          rewrite take_l_stop by exact Hq. apply app_nil_r. }
+        rewrite Er0. replace (2 <=? length r)%nat with true by (symmetry; apply Nat.leb_le; exact H2). left. subst m. cbn. lia.
+      * right.
+        assert (Hna : forallb cspace (q :: pre') = false).
+        { destruct (forallb cspace (q :: pre')) eqn:X; [|reflexivity]. destruct (lastc (q :: pre')) as [z|] eqn:Ez.
+          - rewrite (lastc_all _ z X Ez) in Hp. discriminate.
+          - apply lastc_none in Ez. discriminate. }
+        destruct (first_nonc _ Hna) as (x & d & y & Ex & Hx & Hd).
+        assert (Er0 : r0 = x).
+        { unfold r0. rewrite E, Ex. rewrite <- app_assoc. rewrite take_l_app_all by exact Hx. cbn [app]. rewrite take_l_stop by exact Hd. apply app_nil_r. }
+        assert (Ert : rest = d :: y ++ r ++ post).
+        { unfold rest. rewrite E, Ex. rewrite <- app_assoc. rewrite trim_l_app_all by exact Hx. cbn [app]. apply trim_l_stop. exact Hd. }
+        rewrite Ert.
+        assert (Hlen : (length (y ++ r ++ post) <= n)%nat).
+        { apply (f_equal (@length cc)) in El. rewrite Ert in El. rewrite app_length in El. cbn [length] in El. cbn [length] in Hl. lia. }
+        apply (IH _ _ m Hlen). exists y, r, post. split.
+        -- split; [reflexivity|]. split; [exact Hr|]. split; [exact H2|]. split; [|exact Hq].
+           destruct y as [|z y']; [exact I|]. rewrite Ex in Hp. rewrite lastc_app in Hp by discriminate.
+           rewrite lastc_cons in Hp by discriminate. exact Hp.
+        -- rewrite Em, Er0, Ex. rewrite !blen_chars_app, !blen_chars_cons, blen_chars_nil. lia.
+Qed.
+
+Lemma flat_pcols : forall (F : nat -> list viol) ps,
+  flat_map (fun p : nat * list ch => flat_map (fun m => F (fst p + m)%nat) (sp_runs 0 0 0 (snd p))) ps = flat_map F (pcols ps).
+Proof.
+  intros F. induction ps as [|p ps IH]; [reflexivity|]. unfold pcols in *. cbn [flat_map]. rewrite flat_map_app. rewrite IH. f_equal.
+  induction (sp_runs 0 0 0 (snd p)) as [|m ms IHm]; [reflexivity|]. cbn [flat_map map]. rewrite IHm. reflexivity.
+Qed.
+
+Lemma l010_line_exact : forall n fl v,
+  In v (l010_check_line n fl) <->
+  exists pre r post, cspace_run (snd fl) pre r post /\ indent_bytes (snd fl) (S (blen (chars pre))) = false /\ v = (n, S (blen (chars pre))).
+Proof.
+  intros n fl v. unfold l010_check_line. cbv zeta.
+  rewrite (flat_pcols (fun k => if forallb (fun b => (b =? 32) || (b =? 9)) (firstn (S k) (encode (chars (snd fl)))) then [] else [(n, S k)])).
+  rewrite pcols_runs. rewrite in_flat_map. split.
+  - intros (m & Hm & Hv). apply (runs_exact_n (length (snd fl)) (snd fl) 0%nat m (le_n _)) in Hm.
+    destruct Hm as (pre & r & post & Hc & Em). cbn [Nat.add] in Em. subst m. exists pre, r, post. split; [exact Hc|].
+    unfold indent_bytes. destruct (forallb _ (firstn (S (blen (chars pre))) (encode (chars (snd fl))))); [destruct Hv|].
+    destruct Hv as [Hv|[]]. split; [reflexivity|symmetry; exact Hv].
+  - intros (pre & r & post & Hc & Hi & Ev). exists (blen (chars pre)). split.
+    + apply (runs_exact_n (length (snd fl)) (snd fl) 0%nat _ (le_n _)). exists pre, r, post. split; [exact Hc|reflexivity].
+    + unfold indent_bytes in Hi. rewrite Hi. left. symmetry. exact Ev.
+Qed.
+
+Theorem l010_check_exact : forall t n col,
+  In (n, col) (l010_check t) <->
+  exists fl pre r post, nth_error (clines t) (n - 1) = Some fl /\ (1 <= n)%nat /\ cspace_run (snd fl) pre r post /\
+    indent_bytes (snd fl) col = false /\ col = S (blen (chars pre)).
+Proof.
+  intros t n col. unfold l010_check. rewrite on_clines_in. split.
+  - intros (i & fl & Hn & Hin). apply l010_line_exact in Hin. destruct Hin as (pre & r & post & Hc & Hi & Ev).
+    assert (E : (n - 1 = i)%nat /\ (1 <= n)%nat /\ col = S (blen (chars pre))) by (inversion Ev; subst; repeat split; lia).
+    destruct E as (E1 & E2 & E3). exists fl, pre, r, post. rewrite E1, E3. split; [exact Hn|]. split; [exact E2|]. split; [exact Hc|]. split; [exact Hi|reflexivity].
+  - intros (fl & pre & r & post & Hn & H1 & Hc & Hi & Ec). exists (n - 1)%nat, fl. split; [exact Hn|].
+    apply l010_line_exact. exists pre, r, post. split; [exact Hc|]. subst col. split; [exact Hi|]. f_equal. lia.
+Qed.
+
+Theorem l010_location : forall t n col, In (n, col) (l010_check t) ->
+  exists fl, nth_error (clines t) (n - 1) = Some fl /\ (1 <= n <= length (clines t))%nat /\ (1 <= col <= S (blen (chars (snd fl))))%nat.
+Proof.
+  intros t n col H. apply l010_check_exact in H. destruct H as (fl & pre & r & post & Hn & H1 & (E & _) & _ & Ec).
+  exists fl. split; [exact Hn|]. split.
+  - split; [exact H1|]. assert (n - 1 < length (clines t))%nat by (apply nth_error_Some; congruence). lia.
+  - subst col. rewrite E. unfold chars. rewrite map_app, blen_app. split; [apply le_n_S; apply Nat.le_0_l|]. apply le_n_S. apply Nat.le_add_r.
+Qed.
